@@ -519,13 +519,14 @@ func OutOfOrderImage(run *vk.Run, seed int64) ([]byte, func(vcpus int, product s
 		return nil, nil, err
 	}
 	const rst = 0x8123f0a0
-	gen := snpFw{Rom: 2, Base: "high", Secs: []snpSec{{Kind: 1, Addr: 2, Len: 1}, {Kind: 3, Addr: 3, Len: 1}, {Kind: 2, Addr: 1, Len: 1}, {Kind: 4, Addr: 0, Len: 1}}}
+	// (six ROM pages: more than four, not a multiple of four)
+	gen := snpFw{Rom: 6, Base: "high", Secs: []snpSec{{Kind: 1, Addr: 2, Len: 1}, {Kind: 3, Addr: 3, Len: 1}, {Kind: 2, Addr: 1, Len: 1}, {Kind: 4, Addr: 0, Len: 1}}}
 	img, err := buildSnpImage(gen, seed, rst)
 	if err != nil {
 		return nil, nil, err
 	}
 	ref := func(vcpus int, product string) []byte {
-		ops := []snpOp{{"NORMAL", "rom", 0}, {"NORMAL", "rom", 1}, {"UNMEASURED", "sec", 2}, {"CPUID", "sec", 3}, {"SECRETS", "sec", 1}, {"ZERO", "sec", 0}}
+		ops := []snpOp{{"NORMAL", "rom", 0}, {"NORMAL", "rom", 1}, {"NORMAL", "rom", 2}, {"NORMAL", "rom", 3}, {"NORMAL", "rom", 4}, {"NORMAL", "rom", 5}, {"UNMEASURED", "sec", 2}, {"CPUID", "sec", 3}, {"SECRETS", "sec", 1}, {"ZERO", "sec", 0}}
 		for v := 0; v < vcpus; v++ {
 			w := "ap"
 			if v == 0 {
